@@ -78,6 +78,8 @@ impl World {
             fsinfo_writes_only: true,
             stats_called_unusable: false,
             faulted: false,
+            stop: false,
+            unmount_failed: false,
             geo,
             prop: prop.to_string(),
             obs: 0x0B5,
@@ -211,6 +213,7 @@ fn session(w: &mut World, src: &mut dyn StepSource, trace: &mut Vec<Step>, max_s
     }
     w.mounted_dirty = w.mount_status & 1 != 0;
     w.structural = false;
+    w.unmount_failed = false;
     w.session_writes = 0;
     w.fsinfo_writes_only = true;
     w.stats_called_unusable = false;
@@ -262,7 +265,7 @@ fn session(w: &mut World, src: &mut dyn StepSource, trace: &mut Vec<Step>, max_s
                 break;
             }
             exec_step(w, &mut s, &step)?;
-            if w.faulted && !w.cfg.oracles.crash_log {
+            if w.stop || (w.faulted && !w.cfg.oracles.crash_log && !w.cfg.oracles.fault_resilient) {
                 // after a hard fault: one relaxed structural check, then the run ends
                 end = SessionEnd::Finished;
                 break;
@@ -294,6 +297,7 @@ fn session(w: &mut World, src: &mut dyn StepSource, trace: &mut Vec<Step>, max_s
                 if !w.faulted {
                     return Err(viol(&w.prop, "unmount-failed", format!("{:?}", e), w.step_no));
                 }
+                w.unmount_failed = true;
             }
             Guarded::Panic(m) => return Err(viol(&w.prop, "unmount-panicked", m, w.step_no)),
             Guarded::Hang => return Err(viol(&w.prop, "unmount-hang", String::new(), w.step_no)),
@@ -307,6 +311,10 @@ fn session(w: &mut World, src: &mut dyn StepSource, trace: &mut Vec<Step>, max_s
             // abandonment: whatever the destructor would write never reaches the device
             let _ = guarded(|| drop(fs));
             w.disk.borrow_mut().store = pre_end.clone();
+            if w.cfg.oracles.crash_log {
+                // ... and is not part of the device's write history either
+                w.disk.borrow_mut().writes.clear();
+            }
         }
     }
     oracle::account_writes(w, "unmount")?;
@@ -595,6 +603,7 @@ pub fn exec_step(w: &mut World, s: &mut Session, step: &Step) -> Result<(), Viol
                             let Some((p, leaf)) = parent.clone() else {
                                 w.stats.model_diverged += 1;
                                 w.faulted = true;
+                                w.stop = true;
                                 return Ok(());
                             };
                             let n = w.model.add(p, &leaf, true, now);
@@ -621,6 +630,7 @@ pub fn exec_step(w: &mut World, s: &mut Session, step: &Step) -> Result<(), Viol
                             let Some((p, leaf)) = parent.clone() else {
                                 w.stats.model_diverged += 1;
                                 w.faulted = true;
+                                w.stop = true;
                                 return Ok(());
                             };
                             let n = w.model.add(p, &leaf, false, now);
@@ -873,6 +883,7 @@ pub fn exec_step(w: &mut World, s: &mut Session, step: &Step) -> Result<(), Viol
                 // library renamed something the model says cannot be renamed (outcome oracle off): stop the run
                 w.stats.model_diverged += 1;
                 w.faulted = true;
+                w.stop = true;
                 return Ok(());
             }
             if out.res.is_ok() && will_move {
